@@ -33,13 +33,24 @@ VaryOne(b) == { [BaseTable(b) EXCEPT ![f] = Built(n)] : f \in Required \cup Opti
          \cup { [BaseTable(b) EXCEPT !["priv"] = Raw(n, "x")] : n \in Lens }
 SliceTables == UNION { VaryOne(b) : b \in {"odd", "even"} }
 
-FileCase(b, c) == [kind |-> "file", base |-> b, init |-> Expect(BaseTable(b)), shape |-> c.shape, entry |-> c.entry,
-                   option |-> c.option, outcome |-> c.outcome]
+(* data set variants of a complete file: "none" = empty data set, "pn" = only Patient Name  *)
+(* with a value of pn characters (Implicit VR LE: 8-byte header + value), "full" = the      *)
+(* driver's 4-element data set.  For the shortest table ("tiny", Implicit VR LE) the        *)
+(* variants put the preamble-less file below, at and above the 132-byte detection window.   *)
+BareLen(b, ds) == 4 + WrittenLen(BaseTable(b)) + (IF ds.kind = "pn" THEN 8 + ds.pn ELSE 0)   \* lower bound for "full"
+DataSets(b) == IF b = "tiny"
+               THEN { [kind |-> "none", pn |-> 0], [kind |-> "full", pn |-> 0] }
+                    \cup { [kind |-> "pn", pn |-> n] : n \in {2, 36, 38, 40, 42, 64} }
+               ELSE { [kind |-> "full", pn |-> 0] }
+FileCase(b, ds, c) == [kind |-> "file", base |-> b, init |-> Expect(BaseTable(b)), ds |-> ds,
+                       bare |-> IF ds.kind = "full" THEN 0 ELSE BareLen(b, ds),
+                       shape |-> c.shape, entry |-> c.entry, option |-> c.option, outcome |-> c.outcome, size |-> c.size]
 
 GInit == /\ Init /\ h = <<>>
          /\ base = (CHOOSE b \in BaseTables : BaseTable(b) = tab)
          /\ ("tables" \in Modes /\ base = (CHOOSE b \in BaseTables : TRUE)) => \A t \in SliceTables : PrintT(<<"CASE", ToJson([kind |-> "ops", base |-> "slice", init |-> Expect(t), steps |-> <<>>])>>)
-         /\ ("files" \in Modes /\ base \in FileBases) => \A c \in P!Cases : PrintT(<<"CASE", ToJson(FileCase(base, c))>>)
+         /\ ("files" \in Modes /\ base \in FileBases) => \A ds \in DataSets(base) : \A c \in P!Cases(BareLen(base, ds) + (IF ds.kind = "full" THEN 200 ELSE 0)) :
+                                                            PrintT(<<"CASE", ToJson(FileCase(base, ds, c))>>)
 OpsAt(d) == IF d = 0 THEN Ops ELSE { op \in Ops : op.target \in DeepTargets /\ op.act.a \in DeepActNames }
 GNext == /\ "ops" \in Modes /\ Len(h) < MaxLen
          /\ (Len(h) = 0 \/ base \in DeepBases)
